@@ -277,6 +277,8 @@ def gen_map_config(rng: random.Random) -> list[dict]:
             return lo, hi
         return None
 
+    # identifiers in any order, some a prefix of others (1, 10, 11, 100)
+    idents = rng.sample([1, 2, 3, 10, 11, 12, 100, 21, 110], nranges) if rng.random() < 0.6 else list(range(1, nranges + 1))
     for i in range(nranges):
         br = take()
         if br is None:
@@ -284,7 +286,7 @@ def gen_map_config(rng: random.Random) -> list[dict]:
         size = rng.choice([0x8000, 0x10000])
         partial = size == 0x10000 and rng.random() < 0.25   # upper half of a 64K bank visible (HiROM system area)
         m = {
-            "identifier": i + 1,
+            "identifier": idents[i],
             "bank_range": br,
             "addr_range": (0x8000, 0xFFFF) if size == 0x8000 or partial else (0, 0xFFFF),
             "mask": size,
@@ -403,7 +405,7 @@ def run_bus_api(shard: dict, res: Res) -> None:
             lo = rng.randint(old["bank_range"][0], old["bank_range"][1])
             hi = rng.randint(lo, min(old["bank_range"][1], lo + 3))
             size = rng.choice([0x8000, 0x10000])
-            do_map({"identifier": 40, "bank_range": (lo, hi), "addr_range": (0x8000, 0xFFFF) if size == 0x8000 else (0, 0xFFFF), "mask": size,
+            do_map({"identifier": 400, "bank_range": (lo, hi), "addr_range": (0x8000, 0xFFFF) if size == 0x8000 else (0, 0xFFFF), "mask": size,
                     **({"writable": 1} if rng.random() < 0.5 else {})})
             res.count("bus_api_takeovers")
         for k in range(rng.randint(0, 2)):
@@ -417,7 +419,7 @@ def run_bus_api(shard: dict, res: Res) -> None:
                     hi = min(255, lo + rng.randrange(0, 24))
                 if not covered(lo, hi):
                     size = rng.choice([0x8000, 0x10000])
-                    do_map({"identifier": 20 + k, "bank_range": (lo, hi), "addr_range": (0x8000, 0xFFFF) if size == 0x8000 else (0, 0xFFFF), "mask": size})
+                    do_map({"identifier": 200 + k, "bank_range": (lo, hi), "addr_range": (0x8000, 0xFFFF) if size == 0x8000 else (0, 0xFFFF), "mask": size})
                     break
         cfg = rm.from_map_directives(live)
         table = bank_table(cfg)
